@@ -23,13 +23,14 @@ def unbounded(ctx):
     TLC checks the lemma (and 'first free value in cyclic order') on ToiAlloc!Advance for every M in 2..10, every v and
     every reserved set; mc() checks the refinement ToiAlloc => ToiAllocProof (PROPERTY AbsStep)."""
     import shutil, re as _re
-    for m in range(2, 11):
+    top = 11 if ctx.tier == "quick" else 17      # M = 2..10 (quick) / 2..16 (thorough)
+    for m in range(2, top):
         cfg = ctx.path("adv-%d.cfg" % m)
         open(cfg, "w").write("SPECIFICATION Spec\nCONSTANTS M = %d Start = 1 MaxLive = 1 Depth = 0 NObjs = 1\nINVARIANT AdvLemmaHolds AdvFirstFree\nCHECK_DEADLOCK FALSE\n" % m)
         r = tlc(ctx, "ToiAlloc", cfg=cfg, workers=1, mode="mc", timeout=600)
         tlc_must_pass(ctx, r, "AdvLemma M=%d" % m)
-    ctx.mc.append({"name": "AdvLemma[M=2..10]", "states": 9, "generated": 9, "wall_s": 0,
-                   "cases": sum((m - 1) * 2 ** (m - 1) for m in range(2, 11))})
+    ctx.mc.append({"name": "AdvLemma[M=2..%d]" % (top - 1), "states": top - 2, "generated": top - 2, "wall_s": 0,
+                   "cases": sum((m - 1) * 2 ** (m - 1) for m in range(2, top))})
     pdir = ctx.path("tlaps-toi")
     os.makedirs(pdir, exist_ok=True)
     shutil.copy(os.path.join(SPEC, "proofs", "ToiAllocProof.tla"), pdir)
@@ -42,7 +43,7 @@ def unbounded(ctx):
     ctx.notes["tlaps_proof"] = {"module": "spec/proofs/ToiAllocProof.tla", "theorems": ["Safety", "AllocSafe"], "obligations_proved": int(mo.group(1)),
                                 "wall_s": round(time.time() - t0, 1),
                                 "statement": "for ALL M >= 2 (every TOI width): the value an allocation returns is non-zero, below M and not reserved; "
-                                             "assumes the loop lemma (TLC: exhaustive for M = 2..10) and is linked to ToiAlloc.tla by the action property AbsStep (TLC)"}
+                                             "assumes the loop lemma (TLC: exhaustive for M = 2..10, thorough tier 2..16) and is linked to ToiAlloc.tla by the action property AbsStep (TLC)"}
 
 
 def gen(ctx, start, depth):
